@@ -122,6 +122,65 @@ Definition e_attrs (e : entry) : list attribute :=
 Definition is_class_entry (e : entry) : bool :=
   match e with EClass _ _ _ _ _ _ _ => true | _ => false end.
 
+(* the class-structural content of an entry: what C09 speaks about.  Parameter names and
+   macro notes of methods come from later definitions and are not part of this view. *)
+Record cv := {
+  cv_name : str; cv_doc : str; cv_supers : list str; cv_inner : list str;
+  cv_ctors : list (str * str * list str); cv_members : list (str * str * list str);
+  cv_attrs : list (str * str * option str) }.
+
+Definition cview (e : entry) : option cv :=
+  match e with
+  | EClass n d su inner ct me at_ =>
+      Some {| cv_name := n; cv_doc := d; cv_supers := su; cv_inner := inner;
+              cv_ctors := map method_view ct; cv_members := map method_view me;
+              cv_attrs := map attr_view at_ |}
+  | _ => None
+  end.
+
+Definition cview_at (st : agg) (i : nat) : option cv :=
+  match nth_error (documented st) i with Some e => cview e | None => None end.
+
+(* st' keeps every class view of st (entries may have been appended) *)
+Definition cv_frame (st st' : agg) : Prop :=
+  length (documented st) <= length (documented st')
+  /\ forall i, i < length (documented st) -> cview_at st' i = cview_at st i.
+
+(* what a stretch of a class body contributes to the class on top of the stack *)
+Record items := {
+  it_inner : list str;
+  it_ctors : list (str * str * list str);
+  it_members : list (str * str * list str);
+  it_attrs : list (str * str * option str) }.
+
+Definition no_items : items :=
+  {| it_inner := []; it_ctors := []; it_members := []; it_attrs := [] |}.
+Definition items_app (a b : items) : items :=
+  {| it_inner := it_inner a ++ it_inner b; it_ctors := it_ctors a ++ it_ctors b;
+     it_members := it_members a ++ it_members b; it_attrs := it_attrs a ++ it_attrs b |}.
+Definition node_items (n : node) : items :=
+  {| it_inner := node_inner n; it_ctors := node_method_decls true n;
+     it_members := node_method_decls false n; it_attrs := node_attrs n |}.
+Definition items_of (body : list node) : items :=
+  {| it_inner := class_inner body; it_ctors := class_method_decls true body;
+     it_members := class_method_decls false body; it_attrs := class_attrs body |}.
+
+Definition cv_ext (it : items) (v : cv) : cv :=
+  {| cv_name := cv_name v; cv_doc := cv_doc v; cv_supers := cv_supers v;
+     cv_inner := cv_inner v ++ it_inner it; cv_ctors := cv_ctors v ++ it_ctors it;
+     cv_members := cv_members v ++ it_members it; cv_attrs := cv_attrs v ++ it_attrs it |}.
+
+(* running from st to st' added exactly [it] to class N and nothing to any older class *)
+Definition class_run (N : nat) (it : items) (st st' : agg) : Prop :=
+  class_stack st' = class_stack st
+  /\ length (documented st) <= length (documented st')
+  /\ (forall i, i < length (documented st) -> i <> N -> cview_at st' i = cview_at st i)
+  /\ (N < length (documented st) -> cview_at st' N = option_map (cv_ext it) (cview_at st N)).
+
+(* the four flags that govern class content *)
+Definition class_flags_on (fl : flags) : bool :=
+  inc_cpp_class fl && inc_cpp_attr fl && inc_cpp_constructor fl && inc_cpp_member fl.
+
 (* ---- generic list / string helpers ------------------------------------------------ *)
 
 Lemma str_eqb_refl : forall a, str_eqb a a = true.
@@ -189,6 +248,54 @@ Lemma skipn2_guard : forall A (l : list A),
     (if Nat.ltb 2 (length l) then skipn 2 l else []) = skipn 2 l.
 Proof.
   intros A [|a [|b [|c l]]]; reflexivity.
+Qed.
+
+Lemma nth_error_update_nth : forall A (f : A -> A) l n i,
+    nth_error (update_nth n f l) i
+    = if Nat.eqb i n then option_map f (nth_error l i) else nth_error l i.
+Proof.
+  intros A f l n i. destruct (Nat.eqb i n) eqn:E.
+  - apply Nat.eqb_eq in E. subst i. destruct (nth_error l n) as [x|] eqn:Hn.
+    + cbn [option_map]. apply nth_error_update_nth_eq. exact Hn.
+    + cbn [option_map]. rewrite update_nth_none by exact Hn. exact Hn.
+  - apply Nat.eqb_neq in E. apply nth_error_update_nth_neq. exact E.
+Qed.
+
+Lemma map_update_last_view : forall mac extra l,
+    map method_view (update_last (upd_method mac extra) l) = map method_view l.
+Proof.
+  intros mac extra l. destruct l as [|x l] using rev_ind; [reflexivity|].
+  rewrite update_last_snoc, !map_app. reflexivity.
+Qed.
+
+Lemma cv_frame_refl : forall st, cv_frame st st.
+Proof. intros st. split; [lia|reflexivity]. Qed.
+
+Lemma cv_frame_trans : forall a b c, cv_frame a b -> cv_frame b c -> cv_frame a c.
+Proof.
+  intros a b c [L1 H1] [L2 H2]. split; [lia|].
+  intros i Hi. rewrite H2 by lia. apply H1. exact Hi.
+Qed.
+
+Lemma cv_frame_same : forall st st', documented st' = documented st -> cv_frame st st'.
+Proof.
+  intros st st' H. split; [rewrite H; lia|]. intros i _. unfold cview_at. rewrite H. reflexivity.
+Qed.
+
+Lemma cv_frame_app : forall st st' l, documented st' = documented st ++ l -> cv_frame st st'.
+Proof.
+  intros st st' l H. split; [rewrite H, app_length; lia|].
+  intros i Hi. unfold cview_at. rewrite H, nth_error_app1 by exact Hi. reflexivity.
+Qed.
+
+Lemma cv_frame_upd : forall st idx f,
+    (forall e, cview (f e) = cview e) -> cv_frame st (with_docs (update_nth idx f) st).
+Proof.
+  intros st idx f Hf. split.
+  - cbn [with_docs documented]. rewrite length_update_nth. lia.
+  - intros i _. unfold cview_at. cbn [with_docs documented]. rewrite nth_error_update_nth.
+    destruct (Nat.eqb i idx); [|reflexivity].
+    destruct (nth_error (documented st) i) as [e|]; cbn [option_map]; [apply Hf|reflexivity].
 Qed.
 
 (* evaluate str_eqb / is_def_name on closed arguments only *)
@@ -369,6 +476,104 @@ Lemma class_no_args_noop : forall c doc docd st,
     singles c = [] -> process_class c doc docd st = st.
 Proof. intros c doc docd st Hs. unfold process_class. rewrite Hs. reflexivity. Qed.
 
+(* ---- the nested view: induction principle and unfolding lemmas ---------------------- *)
+
+Section NodeInd.
+  Variable P : node -> Prop.
+  Hypothesis HCmd : forall d c, P (NCmd d c).
+  Hypothesis HDang : forall d, P (NDangling d).
+  Hypothesis HDef : forall d h body e, Forall P body -> P (NDef d h body e).
+  Hypothesis HClass : forall d h body e, Forall P body -> P (NClass d h body e).
+
+  Fixpoint node_ind2 (n : node) : P n :=
+    match n with
+    | NCmd d c => HCmd d c
+    | NDangling d => HDang d
+    | NDef d h body e =>
+        HDef d h body e
+             ((fix go (l : list node) : Forall P l :=
+                 match l with
+                 | [] => Forall_nil P
+                 | x :: r => Forall_cons x (node_ind2 x) (go r)
+                 end) body)
+    | NClass d h body e =>
+        HClass d h body e
+               ((fix go (l : list node) : Forall P l :=
+                   match l with
+                   | [] => Forall_nil P
+                   | x :: r => Forall_cons x (node_ind2 x) (go r)
+                   end) body)
+    end.
+End NodeInd.
+
+Lemma flatten_def : forall d h body e,
+    flatten (NDef d h body e) = elem_of d h :: flatten_all body ++ [ECmd e].
+Proof.
+  intros d h body e. reflexivity.
+Qed.
+
+Lemma flatten_class : forall d h body e,
+    flatten (NClass d h body e) = elem_of d h :: flatten_all body ++ [ECmd e].
+Proof.
+  intros d h body e. reflexivity.
+Qed.
+
+Lemma wf_def : forall d h body e,
+    wf_node (NDef d h body e) = is_def_cmd h && is_end_def_cmd e && wf_nodes body.
+Proof.
+  intros d h body e. reflexivity.
+Qed.
+
+Lemma wf_class : forall d h body e,
+    wf_node (NClass d h body e) = is_class_cmd h && is_end_class_cmd e && wf_nodes body.
+Proof.
+  intros d h body e. reflexivity.
+Qed.
+
+Lemma hdrs_ok_def : forall d h body e,
+    class_hdrs_ok_node (NDef d h body e) = class_hdrs_ok body.
+Proof.
+  intros d h body e. reflexivity.
+Qed.
+
+Lemma hdrs_ok_class : forall d h body e,
+    class_hdrs_ok_node (NClass d h body e)
+    = negb (match singles h with [] => true | _ :: _ => false end) && class_hdrs_ok body.
+Proof.
+  intros d h body e. reflexivity.
+Qed.
+
+Lemma no_doc_def : forall d h body e,
+    no_doc_class_node (NDef d h body e) = no_doc_class body.
+Proof.
+  intros d h body e. reflexivity.
+Qed.
+
+Lemma no_doc_class_class : forall d h body e,
+    no_doc_class_node (NClass d h body e)
+    = (match d with None => true | Some _ => false end) && no_doc_class body.
+Proof.
+  intros d h body e. reflexivity.
+Qed.
+
+(* what well-formedness says about the kind of a plain command *)
+Lemma wf_cmd_kinds : forall d c,
+    wf_node (NCmd d c) = true ->
+    is_def_name (cmd_kind c) = false
+    /\ (cmd_kind c <> s"endfunction" /\ cmd_kind c <> s"endmacro")
+    /\ cmd_kind c <> s"cpp_class"
+    /\ cmd_kind c <> s"cpp_end_class".
+Proof.
+  intros d c H. cbn [wf_node] in H.
+  apply andb_true_iff in H. destruct H as [H H4].
+  apply andb_true_iff in H. destruct H as [H H3].
+  apply andb_true_iff in H. destruct H as [H1 H2].
+  apply negb_true_iff in H1, H2, H3, H4.
+  unfold is_def_cmd, is_end_def_cmd, is_class_cmd, is_end_class_cmd, kind_is in *.
+  apply orb_false_iff in H2. destruct H2 as [H2a H2b].
+  repeat split; try (apply str_eqb_neq; assumption). exact H1.
+Qed.
+
 (* ---- the command-kind dispatch ---------------------------------------------------- *)
 
 Definition kind_name (h : handler) : str :=
@@ -382,10 +587,12 @@ Definition kind_name (h : handler) : str :=
 Lemma lookup_handler_kind : forall k h, lookup k handler_table = Some h -> k = kind_name h.
 Proof.
   intros k h. unfold handler_table. cbn [lookup].
-  repeat (let E := fresh "E" in
-          destruct (str_eqb k _) eqn:E;
-          [apply str_eqb_eq in E; intro H; inversion H; subst; reflexivity|]).
-  discriminate.
+  do 12 (let E := fresh "E" in
+         lazymatch goal with
+         | |- (if str_eqb k ?x then _ else _) = _ -> _ => destruct (str_eqb k x) eqn:E
+         end;
+         [apply str_eqb_eq in E; intro H; inversion H; subst; reflexivity|]).
+  intro H; discriminate H.
 Qed.
 
 Lemma lookup_kind_name : forall h, lookup (kind_name h) handler_table = Some h.
@@ -498,7 +705,7 @@ Section WithParams.
       step fl st (elem_of doc c) = Ok (process_member false c (doc_of doc) (docd_of doc) st).
   Proof.
     intros fl [d|] c st Hk Hfl; cbn [elem_of doc_of docd_of].
-    - unfold_step Hk. rewrite Hk. eval_closed. reflexivity.
+    - unfold_step Hk. reflexivity.
     - unfold_step Hk. rewrite (Hfl eq_refl). reflexivity.
   Qed.
 
@@ -508,7 +715,7 @@ Section WithParams.
       step fl st (elem_of doc c) = Ok (process_member true c (doc_of doc) (docd_of doc) st).
   Proof.
     intros fl [d|] c st Hk Hfl; cbn [elem_of doc_of docd_of].
-    - unfold_step Hk. rewrite Hk. eval_closed. reflexivity.
+    - unfold_step Hk. reflexivity.
     - unfold_step Hk. rewrite (Hfl eq_refl). reflexivity.
   Qed.
 
@@ -518,7 +725,7 @@ Section WithParams.
       step fl st (elem_of doc c) = Ok (process_attr c (doc_of doc) (docd_of doc) st).
   Proof.
     intros fl [d|] c st Hk Hfl; cbn [elem_of doc_of docd_of].
-    - unfold_step Hk. rewrite Hk. eval_closed. reflexivity.
+    - unfold_step Hk. reflexivity.
     - unfold_step Hk. rewrite (Hfl eq_refl). reflexivity.
   Qed.
 
@@ -528,7 +735,7 @@ Section WithParams.
       step fl st (elem_of doc c) = Ok (process_class c (doc_of doc) (docd_of doc) st).
   Proof.
     intros fl [d|] c st Hk Hfl; cbn [elem_of doc_of docd_of].
-    - unfold_step Hk. rewrite Hk, Hfl. eval_closed. reflexivity.
+    - unfold_step Hk. rewrite Hfl. reflexivity.
     - unfold_step Hk. rewrite Hfl. reflexivity.
   Qed.
 
@@ -540,7 +747,7 @@ Section WithParams.
       = Ok (with_class_stack (None :: class_stack (process_class c (clean_doc_text d) true st))
                              (process_class c (clean_doc_text d) true st)).
   Proof.
-    intros fl d c st Hk Hfl. unfold_step Hk. rewrite Hk, Hfl. eval_closed. reflexivity.
+    intros fl d c st Hk Hfl. unfold_step Hk. rewrite Hfl. reflexivity.
   Qed.
 
   Lemma step_class_undoc_flag_off : forall fl c st,
@@ -561,4 +768,1341 @@ Section WithParams.
     intros fl c st Hk. unfold_step Hk. reflexivity.
   Qed.
 
+
+  (* ---- frames: what the other commands leave alone ---------------------------------- *)
+
+  Lemma cview_set_kwargs : forall e, cview (set_kwargs e) = cview e.
+  Proof. intros e; destruct e; reflexivity. Qed.
+
+  Ltac frame_solve :=
+    split; [|split]; intros;
+    try (exfalso; congruence);
+    try reflexivity;
+    try (apply cv_frame_same; reflexivity);
+    try (eapply cv_frame_app; reflexivity).
+
+  Lemma run_handler_frame : forall h c doc docd st st',
+      runh h c doc docd st = Ok st' ->
+      (h <> HClass -> class_stack st' = class_stack st)
+      /\ (h <> HTest -> h <> HSection -> h <> HMember -> h <> HCtor ->
+          awaiting st' = awaiting st)
+      /\ (h <> HClass -> h <> HMember -> h <> HCtor -> h <> HAttr -> cv_frame st st').
+  Proof.
+    intros h c doc docd st st' H. destruct h; cbn [run_handler] in H.
+    - unfold process_def in H. destruct (singles c) as [|nm ps]; [discriminate|].
+      inversion H; subst; clear H. frame_solve.
+    - unfold process_def in H. destruct (singles c) as [|nm ps]; [discriminate|].
+      inversion H; subst; clear H. frame_solve.
+    - inversion H; subst; clear H. unfold process_cpa.
+      destruct (def_stack st) as [|[idx|] r]; frame_solve.
+      apply cv_frame_upd. apply cview_set_kwargs.
+    - inversion H; subst; clear H. unfold process_test.
+      destruct (Nat.ltb (length (singles c)) 2); [frame_solve|].
+      destruct (scan_name (singles c) []); frame_solve.
+    - inversion H; subst; clear H. unfold process_test.
+      destruct (Nat.ltb (length (singles c)) 2); [frame_solve|].
+      destruct (scan_name (singles c) []); frame_solve.
+    - unfold process_set in H. destruct (singles c) as [|nm vals]; [inversion H; subst; frame_solve|].
+      destruct vals as [|v [|v2 vals]].
+      + inversion H; subst; frame_solve.
+      + destruct (unquote v); [|discriminate]. inversion H; subst; frame_solve.
+      + inversion H; subst; frame_solve.
+    - inversion H; subst; clear H. frame_solve.
+      unfold process_class. destruct (singles c) as [|nm su]; [reflexivity|].
+      destruct (class_stack st) as [|[ci|] r]; reflexivity.
+    - inversion H; subst; clear H. unfold process_member.
+      destruct (Nat.ltb (length (singles c)) 2); [frame_solve|].
+      destruct (class_stack st) as [|[ci|] r] eqn:Ecs; frame_solve;
+        cbn [class_stack with_awaiting with_docs]; congruence.
+    - inversion H; subst; clear H. unfold process_member.
+      destruct (Nat.ltb (length (singles c)) 2); [frame_solve|].
+      destruct (class_stack st) as [|[ci|] r] eqn:Ecs; frame_solve;
+        cbn [class_stack with_awaiting with_docs]; congruence.
+    - inversion H; subst; clear H. unfold process_attr.
+      destruct (Nat.ltb (length (singles c)) 2); [frame_solve|].
+      destruct (class_stack st) as [|[ci|] r] eqn:Ecs; frame_solve;
+        cbn [class_stack with_awaiting with_docs]; congruence.
+    - inversion H; subst; clear H. unfold process_add_test.
+      destruct (Nat.ltb (length (singles c)) 2); [frame_solve|].
+      destruct (scan_name_idx (singles c) 0 (None, [])) as [[ix nm]|]; frame_solve.
+    - inversion H; subst; clear H. unfold process_option.
+      destruct (singles c) as [|a [|b [|v [|w r]]]]; frame_solve.
+  Qed.
+
+  Lemma cview_upd_awaiting : forall a mac extra,
+      forall e, cview (match a with
+                       | AwNone => e
+                       | AwTop _ => match e with
+                                    | ETest sec n d xf ps _ => ETest sec n d xf (ps ++ extra) mac
+                                    | _ => e
+                                    end
+                       | AwMethod _ is_ctor =>
+                           match e with
+                           | EClass n d su inner ct me at_ =>
+                               if is_ctor
+                               then EClass n d su inner (update_last (upd_method mac extra) ct) me at_
+                               else EClass n d su inner ct (update_last (upd_method mac extra) me) at_
+                           | _ => e
+                           end
+                       end) = cview e.
+  Proof.
+    intros a mac extra e. destruct a as [|idx|cidx is_ctor]; [reflexivity| |].
+    - destruct e; reflexivity.
+    - destruct e; try reflexivity. destruct is_ctor; cbn [cview]; f_equal;
+        rewrite map_update_last_view; reflexivity.
+  Qed.
+
+  Lemma cv_frame_upd_awaiting : forall a mac extra st,
+      cv_frame st (with_docs (upd_awaiting_entry a mac extra) st).
+  Proof.
+    intros a mac extra st. destruct a as [|idx|cidx is_ctor]; cbn [upd_awaiting_entry].
+    - apply cv_frame_same. reflexivity.
+    - apply cv_frame_upd. intros e. apply (cview_upd_awaiting (AwTop idx)).
+    - apply cv_frame_upd. intros e. apply (cview_upd_awaiting (AwMethod cidx is_ctor)).
+  Qed.
+
+  Definition k_class_cmd (k : str) : Prop := k = s"cpp_class" \/ k = s"cpp_end_class".
+  Definition k_decl_cmd (k : str) : Prop :=
+    k = s"ct_add_test" \/ k = s"ct_add_section" \/ k = s"cpp_member" \/ k = s"cpp_constructor".
+  Definition k_class_item (k : str) : Prop :=
+    k = s"cpp_class" \/ k = s"cpp_end_class" \/ k = s"cpp_member" \/ k = s"cpp_constructor"
+    \/ k = s"cpp_attr".
+
+  Lemma handler_not_class : forall h, ~ k_class_cmd (kind_name h) -> h <> HClass.
+  Proof. intros h H E; subst; apply H; left; reflexivity. Qed.
+
+  Lemma handler_not_decl : forall h, ~ k_decl_cmd (kind_name h) ->
+      h <> HTest /\ h <> HSection /\ h <> HMember /\ h <> HCtor.
+  Proof.
+    intros h H. repeat split; intros E; subst; apply H; unfold k_decl_cmd; cbn [kind_name]; tauto.
+  Qed.
+
+  Lemma handler_not_item : forall h, ~ k_class_item (kind_name h) ->
+      h <> HClass /\ h <> HMember /\ h <> HCtor /\ h <> HAttr.
+  Proof.
+    intros h H. repeat split; intros E; subst; apply H; unfold k_class_item; cbn [kind_name]; tauto.
+  Qed.
+
+  Lemma enter_documented_frame : forall d c st st',
+      enterdoc d c st = Ok st' ->
+      (~ k_class_cmd (cmd_kind c) -> class_stack st' = class_stack st)
+      /\ (~ k_decl_cmd (cmd_kind c) -> awaiting st' = awaiting st)
+      /\ (~ k_class_item (cmd_kind c) -> cv_frame st st').
+  Proof.
+    intros d c st st' H. unfold enter_documented in H. fold (cmd_kind c) in H.
+    destruct (lookup (cmd_kind c) handler_table) as [h|] eqn:L.
+    - apply lookup_handler_kind in L. rewrite L.
+      apply run_handler_frame in H. destruct H as (H1 & H2 & H3).
+      split; [|split].
+      + intros Hk. apply H1. apply handler_not_class; exact Hk.
+      + intros Hk. apply handler_not_decl in Hk. destruct Hk as (A & B & C & D). auto.
+      + intros Hk. apply handler_not_item in Hk. destruct Hk as (A & B & C & D). auto.
+    - inversion H; subst; clear H. unfold process_generic. frame_solve.
+  Qed.
+
+  Lemma enter_command_frame : forall fl consumed c st st',
+      entercmd fl consumed c st = Ok st' ->
+      (~ k_class_cmd (cmd_kind c) -> class_stack st' = class_stack st)
+      /\ (is_def_name (cmd_kind c) = false -> ~ k_decl_cmd (cmd_kind c) ->
+          awaiting st' = awaiting st)
+      /\ (~ k_class_item (cmd_kind c) -> cv_frame st st').
+  Proof.
+    intros fl consumed c st st' H. unfold enter_command in H. cbv zeta in H.
+    fold (cmd_kind c) in H.
+    destruct (str_eqb (cmd_kind c) (s"cpp_class")) eqn:E1.
+    { apply str_eqb_eq in E1.
+      split; [|split].
+      - intros Hk; exfalso; apply Hk; left; exact E1.
+      - intros _ _. cbn [andb] in H. destruct (negb (inc_cpp_class fl)).
+        + inversion H; subst; reflexivity.
+        + rewrite E1 in H. revert H. eval_closed. eval_lookup. cbn [andb orb negb].
+          destruct consumed; cbn [negb]; intro H.
+          * inversion H; subst; reflexivity.
+          * cbn [include_flag] in H. destruct (inc_cpp_class fl).
+            -- cbn [run_handler] in H. inversion H; subst.
+               unfold process_class. destruct (singles c) as [|nm su]; [reflexivity|].
+               destruct (class_stack st) as [|[ci|] r]; reflexivity.
+            -- inversion H; subst; reflexivity.
+      - intros Hk; exfalso; apply Hk; left; exact E1. }
+    cbn [andb] in H.
+    destruct (str_eqb (cmd_kind c) (s"cpp_end_class")) eqn:E2.
+    { apply str_eqb_eq in E2.
+      destruct (class_stack st) as [|x cs] eqn:Ecs; [discriminate|]. inversion H; subst; clear H.
+      split; [|split].
+      - intros Hk; exfalso; apply Hk; right; exact E2.
+      - intros _ _. reflexivity.
+      - intros Hk; exfalso; apply Hk; right; left; exact E2. }
+    destruct (str_eqb (cmd_kind c) (s"cmake_parse_arguments")) eqn:E3.
+    { inversion H; subst; clear H. unfold process_cpa.
+      destruct (def_stack st) as [|[idx|] r]; frame_solve.
+      apply cv_frame_upd. apply cview_set_kwargs. }
+    destruct (is_def_name (cmd_kind c) && match awaiting st with AwNone => false | _ => true end) eqn:E4.
+    { apply andb_true_iff in E4. destruct E4 as [E4 _].
+      destruct consumed; inversion H; subst; clear H.
+      - split; [|split]; intros; try reflexivity; try congruence.
+        apply (cv_frame_upd_awaiting _ _ _ st).
+      - split; [|split]; intros; try reflexivity; try congruence.
+        apply (cv_frame_upd_awaiting _ _ _ st). }
+    destruct (str_eqb (cmd_kind c) (s"endfunction") || str_eqb (cmd_kind c) (s"endmacro")) eqn:E5.
+    { destruct (def_stack st) as [|x ds]; [discriminate|]. inversion H; subst; clear H. frame_solve. }
+    destruct (negb (str_eqb (cmd_kind c) (s"set")) && negb consumed) eqn:E6;
+      [|inversion H; subst; frame_solve].
+    destruct (lookup (cmd_kind c) handler_table) as [h|] eqn:L;
+      [|inversion H; subst; frame_solve].
+    apply lookup_handler_kind in L.
+    destruct (include_flag fl h) as [[|]|] eqn:EF; [| |discriminate].
+    - rewrite L. apply run_handler_frame in H. destruct H as (H1 & H2 & H3).
+      split; [|split].
+      + intros Hk. apply H1. apply handler_not_class; exact Hk.
+      + intros _ Hk. apply handler_not_decl in Hk. destruct Hk as (A & B & C & D). auto.
+      + intros Hk. apply handler_not_item in Hk. destruct Hk as (A & B & C & D). auto.
+    - destruct (is_def_name (cmd_kind c)); inversion H; subst; frame_solve.
+  Qed.
+
+  (* one element: Q4b and the frame facts used below *)
+  Definition elem_kind (e : element) : option str :=
+    match e with
+    | EDocCmd _ c => Some (cmd_kind c)
+    | ECmd c => Some (cmd_kind c)
+    | EDangling _ => None
+    end.
+
+  Lemma step_frame : forall fl st e st',
+      step fl st e = Ok st' ->
+      (forall k, elem_kind e = Some k -> ~ k_class_cmd k -> class_stack st' = class_stack st)
+      /\ (forall k, elem_kind e = Some k -> is_def_name k = false -> ~ k_decl_cmd k ->
+                    awaiting st' = awaiting st)
+      /\ (forall k, elem_kind e = Some k -> ~ k_class_item k -> cv_frame st st').
+  Proof.
+    intros fl st e st' H. destruct e as [d c|c|d]; cbn [agg_step] in H.
+    - destruct (enterdoc d c st) as [st1|] eqn:E1; [|discriminate].
+      apply enter_documented_frame in E1. destruct E1 as (A1 & A2 & A3).
+      apply enter_command_frame in H. destruct H as (B1 & B2 & B3).
+      split; [|split]; intros k Hk; inversion Hk; subst; clear Hk.
+      + intros Hc. rewrite B1, A1 by exact Hc. reflexivity.
+      + intros Hd Hc. rewrite B2, A2 by assumption. reflexivity.
+      + intros Hc. eapply cv_frame_trans; [apply A3|apply B3]; exact Hc.
+    - apply enter_command_frame in H. destruct H as (B1 & B2 & B3).
+      split; [|split]; intros k Hk; inversion Hk; subst; clear Hk; auto.
+    - inversion H; subst. split; [|split]; intros k Hk; discriminate Hk.
+  Qed.
+
+  (* Q4b: the awaiting slot survives every command that is neither a definition nor a
+     test/member declaration, so it is consumed by exactly the next definition *)
+  Theorem awaiting_persists : forall fl st e st',
+      step fl st e = Ok st' ->
+      (forall k, elem_kind e = Some k ->
+                 is_def_name k = false /\ ~ k_decl_cmd k) ->
+      awaiting st' = awaiting st.
+  Proof.
+    intros fl st e st' H Hk. destruct e as [d c|c|d].
+    - apply step_frame in H. destruct H as (_ & H & _).
+      destruct (Hk _ eq_refl) as [A B]. apply (H _ eq_refl A B).
+    - apply step_frame in H. destruct H as (_ & H & _).
+      destruct (Hk _ eq_refl) as [A B]. apply (H _ eq_refl A B).
+    - cbn [agg_step] in H. inversion H; subst. reflexivity.
+  Qed.
+
+
+  (* ---- Q1: cpp_class / cpp_end_class blocks leave the class stack as it was --------- *)
+
+  Lemma elem_kind_elem_of : forall doc c, elem_kind (elem_of doc c) = Some (cmd_kind c).
+  Proof. intros [d|] c; reflexivity. Qed.
+
+  Lemma process_class_stack : forall c doc docd st nm su,
+      singles c = nm :: su ->
+      class_stack (process_class c doc docd st) = Some (length (documented st)) :: class_stack st.
+  Proof.
+    intros c doc docd st nm su Hs. unfold process_class. rewrite Hs.
+    destruct (class_stack st) as [|[ci|] r] eqn:Ecs;
+      cbn [class_stack with_class_stack with_docs append]; rewrite Ecs; reflexivity.
+  Qed.
+
+  Lemma def_not_item : forall c, is_def_cmd c = true -> ~ k_class_item (cmd_kind c).
+  Proof.
+    unfold is_def_cmd, kind_is, k_class_item. intros c H X.
+    repeat (destruct X as [X|X]; [rewrite X in H; vm_compute in H; discriminate H|]).
+    rewrite X in H; vm_compute in H; discriminate H.
+  Qed.
+
+  Lemma end_def_not_item : forall c, is_end_def_cmd c = true -> ~ k_class_item (cmd_kind c).
+  Proof.
+    unfold is_end_def_cmd, kind_is, k_class_item. intros c H X.
+    repeat (destruct X as [X|X]; [rewrite X in H; vm_compute in H; discriminate H|]).
+    rewrite X in H; vm_compute in H; discriminate H.
+  Qed.
+
+  Lemma not_item_not_class : forall k, ~ k_class_item k -> ~ k_class_cmd k.
+  Proof. unfold k_class_item, k_class_cmd. intros k H [X|X]; apply H; tauto. Qed.
+
+  Lemma def_not_class : forall c, is_def_cmd c = true -> ~ k_class_cmd (cmd_kind c).
+  Proof. intros c H. apply not_item_not_class, def_not_item, H. Qed.
+
+  Lemma end_def_not_class : forall c, is_end_def_cmd c = true -> ~ k_class_cmd (cmd_kind c).
+  Proof. intros c H. apply not_item_not_class, end_def_not_item, H. Qed.
+
+  (* the hypothesis under which blocks are balanced: with the class flag on every header needs
+     a name; with the flag off no class may carry a doccomment (finding F9) *)
+  Definition balanced_node (fl : flags) (n : node) : bool :=
+    if inc_cpp_class fl then class_hdrs_ok_node n else no_doc_class_node n.
+  Definition balanced_nodes (fl : flags) (l : list node) : bool :=
+    if inc_cpp_class fl then class_hdrs_ok l else no_doc_class l.
+
+  Lemma balanced_nodes_forallb : forall fl l, balanced_nodes fl l = forallb (balanced_node fl) l.
+  Proof.
+    intros fl l. unfold balanced_nodes, balanced_node, class_hdrs_ok, no_doc_class.
+    destruct (inc_cpp_class fl); reflexivity.
+  Qed.
+
+  Lemma balanced_def : forall fl d h body e,
+      balanced_node fl (NDef d h body e) = balanced_nodes fl body.
+  Proof.
+    intros fl d h body e. unfold balanced_node, balanced_nodes.
+    destruct (inc_cpp_class fl); [apply hdrs_ok_def|apply no_doc_def].
+  Qed.
+
+  Lemma run_nodes_class_stack : forall fl nodes,
+      Forall (fun n => wf_node n = true -> balanced_node fl n = true ->
+                       forall st st', run fl st (flatten n) = Ok st' ->
+                                      class_stack st' = class_stack st) nodes ->
+      wf_nodes nodes = true -> balanced_nodes fl nodes = true ->
+      forall st st', run fl st (flatten_all nodes) = Ok st' -> class_stack st' = class_stack st.
+  Proof.
+    intros fl nodes HF. rewrite balanced_nodes_forallb.
+    induction HF as [|x r Hx _ IH]; intros Hwf Hb st st' Hrun.
+    - cbn in Hrun. inversion Hrun; reflexivity.
+    - cbn [wf_nodes forallb] in Hwf, Hb. apply andb_true_iff in Hwf, Hb.
+      destruct Hwf as [W1 W2]. destruct Hb as [B1 B2].
+      cbn [flatten_all flat_map] in Hrun. rewrite run_app in Hrun.
+      destruct (run fl st (flatten x)) as [st1|] eqn:E1; [|discriminate].
+      rewrite (IH W2 B2 _ _ Hrun). apply (Hx W1 B1 _ _ E1).
+  Qed.
+
+  Lemma node_class_stack : forall fl n,
+      wf_node n = true -> balanced_node fl n = true ->
+      forall st st', run fl st (flatten n) = Ok st' -> class_stack st' = class_stack st.
+  Proof.
+    intros fl. induction n as [d c|d|d h body e IH|d h body e IH] using node_ind2;
+      intros Hwf Hb st st' Hrun.
+    - (* plain command *)
+      cbn [flatten agg_run] in Hrun.
+      destruct (step fl st (elem_of d c)) as [st1|] eqn:E; [|discriminate].
+      inversion Hrun; subst; clear Hrun.
+      apply step_frame in E. destruct E as (E & _ & _).
+      apply (E _ (elem_kind_elem_of d c)).
+      apply wf_cmd_kinds in Hwf. destruct Hwf as (_ & _ & A & B).
+      intros [X|X]; congruence.
+    - cbn in Hrun. inversion Hrun; reflexivity.
+    - (* definition block *)
+      rewrite flatten_def in Hrun. rewrite wf_def in Hwf. rewrite balanced_def in Hb.
+      apply andb_true_iff in Hwf. destruct Hwf as [Hwf W3].
+      apply andb_true_iff in Hwf. destruct Hwf as [W1 W2].
+      cbn [agg_run] in Hrun.
+      destruct (step fl st (elem_of d h)) as [st1|] eqn:E1; [|discriminate].
+      rewrite run_app in Hrun.
+      destruct (run fl st1 (flatten_all body)) as [st2|] eqn:E2; [|discriminate].
+      cbn [agg_run] in Hrun.
+      destruct (step fl st2 (ECmd e)) as [st3|] eqn:E3; [|discriminate].
+      inversion Hrun; subst; clear Hrun.
+      apply step_frame in E1. destruct E1 as (E1 & _ & _).
+      apply step_frame in E3. destruct E3 as (E3 & _ & _).
+      rewrite (E3 _ eq_refl) by (apply end_def_not_class; exact W2).
+      rewrite (run_nodes_class_stack fl body IH W3 Hb _ _ E2).
+      apply (E1 _ (elem_kind_elem_of d h)). apply def_not_class; exact W1.
+    - (* class block *)
+      rewrite flatten_class in Hrun. rewrite wf_class in Hwf.
+      apply andb_true_iff in Hwf. destruct Hwf as [Hwf W3].
+      apply andb_true_iff in Hwf. destruct Hwf as [W1 W2].
+      unfold is_class_cmd, kind_is in W1. apply str_eqb_eq in W1.
+      unfold is_end_class_cmd, kind_is in W2. apply str_eqb_eq in W2.
+      cbn [agg_run] in Hrun.
+      destruct (step fl st (elem_of d h)) as [st1|] eqn:E1; [|discriminate].
+      rewrite run_app in Hrun.
+      destruct (run fl st1 (flatten_all body)) as [st2|] eqn:E2; [|discriminate].
+      cbn [agg_run] in Hrun.
+      destruct (step fl st2 (ECmd e)) as [st3|] eqn:E3; [|discriminate].
+      inversion Hrun; subst; clear Hrun.
+      rewrite step_end_class in E3 by exact W2.
+      assert (Hpush : exists x, class_stack st1 = x :: class_stack st
+                                /\ balanced_nodes fl body = true).
+      { unfold balanced_node in Hb. unfold balanced_nodes.
+        destruct (inc_cpp_class fl) eqn:Efl.
+        - rewrite hdrs_ok_class in Hb. apply andb_true_iff in Hb. destruct Hb as [B1 B2].
+          destruct (singles h) as [|nm su] eqn:Hs; [discriminate|].
+          rewrite step_class in E1 by assumption. inversion E1; subst.
+          eexists. split; [eapply process_class_stack; exact Hs|exact B2].
+        - rewrite no_doc_class_class in Hb. apply andb_true_iff in Hb. destruct Hb as [B1 B2].
+          destruct d as [d|]; [discriminate|]. cbn [elem_of] in E1.
+          rewrite step_class_undoc_flag_off in E1 by assumption. inversion E1; subst.
+          eexists. split; [reflexivity|exact B2]. }
+      destruct Hpush as (x & Hp & Hbb).
+      pose proof (run_nodes_class_stack fl body IH W3 Hbb _ _ E2) as Hbody.
+      rewrite Hbody, Hp in E3. inversion E3; subst. reflexivity.
+  Qed.
+
+  Theorem class_stack_restored_gen : forall fl nodes st st',
+      wf_nodes nodes = true -> balanced_nodes fl nodes = true ->
+      run fl st (flatten_all nodes) = Ok st' -> class_stack st' = class_stack st.
+  Proof.
+    intros fl nodes st st' Hwf Hb Hrun.
+    apply (run_nodes_class_stack fl nodes); try assumption.
+    apply Forall_forall. intros n _. apply node_class_stack.
+  Qed.
+
+  Theorem class_stack_restored : forall fl nodes st st',
+      inc_cpp_class fl = true -> wf_nodes nodes = true -> class_hdrs_ok nodes = true ->
+      run fl st (flatten_all nodes) = Ok st' -> class_stack st' = class_stack st.
+  Proof.
+    intros fl nodes st st' Hfl Hwf Hok Hrun.
+    apply (class_stack_restored_gen fl nodes); try assumption.
+    unfold balanced_nodes. rewrite Hfl. exact Hok.
+  Qed.
+
+  (* with the flag off, blocks stay balanced as long as no class carries a doccomment *)
+  Theorem class_stack_restored_flag_off : forall fl nodes st st',
+      inc_cpp_class fl = false -> wf_nodes nodes = true -> no_doc_class nodes = true ->
+      run fl st (flatten_all nodes) = Ok st' -> class_stack st' = class_stack st.
+  Proof.
+    intros fl nodes st st' Hfl Hwf Hok Hrun.
+    apply (class_stack_restored_gen fl nodes); try assumption.
+    unfold balanced_nodes. rewrite Hfl. exact Hok.
+  Qed.
+
+
+  (* ---- Q6: after cpp_end_class the enclosing class is the context again -------------- *)
+
+  Theorem after_end_class_outer_context :
+    forall fl doc hdr body endc st st1 cidx rest,
+      inc_cpp_class fl = true ->
+      wf_node (NClass doc hdr body endc) = true ->
+      class_hdrs_ok [NClass doc hdr body endc] = true ->
+      class_stack st = Some cidx :: rest ->
+      run fl st (flatten (NClass doc hdr body endc)) = Ok st1 ->
+      class_stack st1 = Some cidx :: rest
+      /\ (forall d c parent name more n dd su inner ct me at_,
+             cmd_kind c = s"cpp_attr" -> (d = None -> inc_cpp_attr fl = true) ->
+             singles c = parent :: name :: more ->
+             nth_error (documented st1) cidx = Some (EClass n dd su inner ct me at_) ->
+             exists st2,
+               step fl st1 (elem_of d c) = Ok st2
+               /\ nth_error (documented st2) cidx
+                  = Some (EClass n dd su inner ct me
+                                 (at_ ++ [decl_attr c parent name (doc_of d) (docd_of d)]))
+               /\ (forall i, i <> cidx ->
+                             nth_error (documented st2) i = nth_error (documented st1) i))
+      /\ (forall (is_ctor : bool) d c name parent types n dd su inner ct me at_,
+             cmd_kind c = (if is_ctor then s"cpp_constructor" else s"cpp_member") ->
+             (d = None -> (if is_ctor then inc_cpp_constructor fl else inc_cpp_member fl) = true) ->
+             singles c = name :: parent :: types ->
+             nth_error (documented st1) cidx = Some (EClass n dd su inner ct me at_) ->
+             exists st2,
+               step fl st1 (elem_of d c) = Ok st2
+               /\ (let m := decl_method is_ctor name parent types (doc_of d) (docd_of d) in
+                   nth_error (documented st2) cidx
+                   = Some (if is_ctor then EClass n dd su inner (ct ++ [m]) me at_
+                           else EClass n dd su inner ct (me ++ [m]) at_))
+               /\ (forall i, i <> cidx ->
+                             nth_error (documented st2) i = nth_error (documented st1) i)
+               /\ awaiting st2 = AwMethod cidx is_ctor).
+  Proof.
+    intros fl doc hdr body endc st st1 cidx rest Hfl Hwf Hok Hcs Hrun.
+    assert (Hcs1 : class_stack st1 = Some cidx :: rest).
+    { rewrite <- Hcs.
+      apply (class_stack_restored fl [NClass doc hdr body endc]); try assumption.
+      - cbn [wf_nodes forallb]. rewrite Hwf. reflexivity.
+      - cbn [flatten_all flat_map]. rewrite app_nil_r. exact Hrun. }
+    split; [exact Hcs1|split].
+    - intros d c parent name more n dd su inner ct me at_ Hk Hf Hs Hn.
+      exists (process_attr c (doc_of d) (docd_of d) st1).
+      split; [apply step_attr; assumption|].
+      destruct (attr_attaches_to_top_only c (doc_of d) (docd_of d) st1 cidx rest parent name more
+                  n dd su inner ct me at_ Hs Hcs1 Hn) as (A & B & _).
+      split; [exact A|exact B].
+    - intros is_ctor d c name parent types n dd su inner ct me at_ Hk Hf Hs Hn.
+      exists (process_member is_ctor c (doc_of d) (docd_of d) st1).
+      split; [destruct is_ctor; [apply step_ctor|apply step_member]; assumption|].
+      destruct (member_attaches_to_top_only is_ctor c (doc_of d) (docd_of d) st1 cidx rest
+                  name parent types n dd su inner ct me at_ Hs Hcs1 Hn) as (A & B & _ & _ & _ & _ & C).
+      split; [exact A|split; [exact B|exact C]].
+  Qed.
+
+  (* ---- Q5: a class entry reflects its body ------------------------------------------- *)
+
+  Lemma cv_ext_none : forall v, cv_ext no_items v = v.
+  Proof. intros [a b c d e f g]. unfold cv_ext, no_items. cbn. rewrite !app_nil_r. reflexivity. Qed.
+
+  Lemma cv_ext_app : forall a b v, cv_ext (items_app a b) v = cv_ext b (cv_ext a v).
+  Proof. intros a b v. unfold cv_ext, items_app. cbn. rewrite !app_assoc. reflexivity. Qed.
+
+  Lemma class_run_frame : forall N st st',
+      class_stack st' = class_stack st -> cv_frame st st' -> class_run N no_items st st'.
+  Proof.
+    intros N st st' Hcs [Hl Hf]. split; [exact Hcs|split; [exact Hl|split]].
+    - intros i Hi _. apply Hf. exact Hi.
+    - intros HN. rewrite Hf by exact HN. destruct (cview_at st N) as [v|]; cbn [option_map];
+        [rewrite cv_ext_none|]; reflexivity.
+  Qed.
+
+  Lemma class_run_refl : forall N st, class_run N no_items st st.
+  Proof. intros N st. apply class_run_frame; [reflexivity|apply cv_frame_refl]. Qed.
+
+  Lemma class_run_trans : forall N a b st st1 st2,
+      class_run N a st st1 -> class_run N b st1 st2 -> class_run N (items_app a b) st st2.
+  Proof.
+    intros N a b st st1 st2 (A1 & A2 & A3 & A4) (B1 & B2 & B3 & B4).
+    split; [congruence|split; [lia|split]].
+    - intros i Hi Hn. rewrite B3 by (try lia; exact Hn). apply A3; assumption.
+    - intros HN. rewrite B4 by lia. rewrite A4 by exact HN.
+      destruct (cview_at st N) as [v|]; cbn [option_map]; [rewrite cv_ext_app|]; reflexivity.
+  Qed.
+
+  Lemma class_run_upd : forall N it f st st',
+      (forall e, cview (f e) = option_map (cv_ext it) (cview e)) ->
+      documented st' = update_nth N f (documented st) ->
+      class_stack st' = class_stack st ->
+      class_run N it st st'.
+  Proof.
+    intros N it f st st' Hf Hd Hcs. split; [exact Hcs|split; [|split]].
+    - rewrite Hd, length_update_nth. lia.
+    - intros i _ Hn. unfold cview_at. rewrite Hd, nth_error_update_nth.
+      apply Nat.eqb_neq in Hn. rewrite Hn. reflexivity.
+    - intros _. unfold cview_at. rewrite Hd, nth_error_update_nth, Nat.eqb_refl.
+      destruct (nth_error (documented st) N) as [e|]; cbn [option_map]; [apply Hf|reflexivity].
+  Qed.
+
+  Lemma cview_add_attr : forall a e,
+      cview (add_attr a e)
+      = option_map (cv_ext {| it_inner := []; it_ctors := []; it_members := [];
+                              it_attrs := [attr_view a] |}) (cview e).
+  Proof.
+    intros a e. destruct e; try reflexivity. cbn [add_attr cview option_map]. unfold cv_ext. cbn.
+    rewrite !app_nil_r, map_app. reflexivity.
+  Qed.
+
+  Lemma cview_add_method : forall (is_ctor : bool) m e,
+      cview (add_method is_ctor m e)
+      = option_map (cv_ext {| it_inner := [];
+                              it_ctors := if is_ctor then [method_view m] else [];
+                              it_members := if is_ctor then [] else [method_view m];
+                              it_attrs := [] |}) (cview e).
+  Proof.
+    intros is_ctor m e. destruct e; try reflexivity.
+    destruct is_ctor; cbn [add_method cview option_map]; unfold cv_ext; cbn;
+      rewrite !app_nil_r, map_app; reflexivity.
+  Qed.
+
+  Lemma cview_add_inner : forall nm e,
+      cview (add_inner nm e)
+      = option_map (cv_ext {| it_inner := [nm]; it_ctors := []; it_members := [];
+                              it_attrs := [] |}) (cview e).
+  Proof.
+    intros nm e. destruct e; try reflexivity. cbn [add_inner cview option_map]. unfold cv_ext. cbn.
+    rewrite !app_nil_r. reflexivity.
+  Qed.
+
+  Lemma update_nth_app1 : forall A (f : A -> A) l r n,
+      n < length l -> update_nth n f (l ++ r) = update_nth n f l ++ r.
+  Proof.
+    intros A f. induction l as [|x l IH]; intros r [|n] H; cbn in H |- *; try lia; [reflexivity|].
+    f_equal. apply IH. lia.
+  Qed.
+
+  Lemma kind_is_false : forall c k, cmd_kind c <> k -> kind_is c k = false.
+  Proof. intros c k H. unfold kind_is. apply str_eqb_neq. exact H. Qed.
+
+  (* a plain command in a class body *)
+  Lemma cmd_class_run : forall fl d c N rest st st',
+      class_flags_on fl = true ->
+      wf_node (NCmd d c) = true ->
+      class_stack st = Some N :: rest ->
+      step fl st (elem_of d c) = Ok st' ->
+      class_run N (node_items (NCmd d c)) st st'.
+  Proof.
+    intros fl d c N rest st st' Hfl Hwf Hcs Hstep.
+    unfold class_flags_on in Hfl.
+    apply andb_true_iff in Hfl. destruct Hfl as [Hfl F4].
+    apply andb_true_iff in Hfl. destruct Hfl as [Hfl F3].
+    apply andb_true_iff in Hfl. destruct Hfl as [F1 F2].
+    apply wf_cmd_kinds in Hwf. destruct Hwf as (_ & _ & K1 & K2).
+    unfold node_items. cbn [node_inner node_method_decls node_attrs].
+    unfold attr_item, method_item.
+    destruct (str_eqb (cmd_kind c) (s"cpp_attr")) eqn:Ea.
+    { apply str_eqb_eq in Ea.
+      rewrite step_attr in Hstep by (try exact Ea; intros _; exact F2).
+      inversion Hstep; subst st'; clear Hstep.
+      unfold kind_is. rewrite Ea. eval_closed. cbv iota.
+      destruct (singles c) as [|parent [|name more]] eqn:Hs.
+      - rewrite attr_ignored by (left; rewrite Hs; cbn; lia). apply class_run_refl.
+      - rewrite attr_ignored by (left; rewrite Hs; cbn; lia). apply class_run_refl.
+      - apply (class_run_upd N _ (add_attr (decl_attr c parent name (doc_of d) (docd_of d)))).
+        + intros e. rewrite cview_add_attr. unfold attr_view, decl_attr. cbn. rewrite Hs. reflexivity.
+        + unfold process_attr, decl_attr. rewrite Hs, Hcs. reflexivity.
+        + unfold process_attr. rewrite Hs, Hcs.
+          cbn [length Nat.ltb Nat.leb class_stack with_docs with_awaiting]. exact Hcs. }
+    destruct (str_eqb (cmd_kind c) (s"cpp_member")) eqn:Em.
+    { apply str_eqb_eq in Em.
+      rewrite step_member in Hstep by (try exact Em; intros _; exact F4).
+      inversion Hstep; subst st'; clear Hstep.
+      unfold kind_is. rewrite Em. eval_closed. cbv iota.
+      destruct (singles c) as [|name [|parent types]] eqn:Hs.
+      - rewrite member_ignored by (left; rewrite Hs; cbn; lia). apply class_run_refl.
+      - rewrite member_ignored by (left; rewrite Hs; cbn; lia). apply class_run_refl.
+      - apply (class_run_upd N _ (add_method false (decl_method false name parent types (doc_of d) (docd_of d)))).
+        + intros e. rewrite cview_add_method. reflexivity.
+        + unfold process_member. rewrite Hs, Hcs. reflexivity.
+        + unfold process_member. rewrite Hs, Hcs.
+          cbn [length Nat.ltb Nat.leb class_stack with_docs with_awaiting]. exact Hcs. }
+    destruct (str_eqb (cmd_kind c) (s"cpp_constructor")) eqn:Ec.
+    { apply str_eqb_eq in Ec.
+      rewrite step_ctor in Hstep by (try exact Ec; intros _; exact F3).
+      inversion Hstep; subst st'; clear Hstep.
+      unfold kind_is. rewrite Ec. eval_closed. cbv iota.
+      destruct (singles c) as [|name [|parent types]] eqn:Hs.
+      - rewrite member_ignored by (left; rewrite Hs; cbn; lia). apply class_run_refl.
+      - rewrite member_ignored by (left; rewrite Hs; cbn; lia). apply class_run_refl.
+      - apply (class_run_upd N _ (add_method true (decl_method true name parent types (doc_of d) (docd_of d)))).
+        + intros e. rewrite cview_add_method. reflexivity.
+        + unfold process_member. rewrite Hs, Hcs. reflexivity.
+        + unfold process_member. rewrite Hs, Hcs.
+          cbn [length Nat.ltb Nat.leb class_stack with_docs with_awaiting]. exact Hcs. }
+    unfold kind_is. rewrite Ea, Em, Ec. fold no_items.
+    apply str_eqb_neq in Ea, Em, Ec.
+    apply step_frame in Hstep. destruct Hstep as (S1 & _ & S3).
+    assert (Hni : ~ k_class_item (cmd_kind c)).
+    { unfold k_class_item. intros [X|[X|[X|[X|X]]]]; congruence. }
+    apply class_run_frame.
+    - apply (S1 _ (elem_kind_elem_of d c)). apply not_item_not_class. exact Hni.
+    - apply (S3 _ (elem_kind_elem_of d c)). exact Hni.
+  Qed.
+
+  Definition class_run_spec (fl : flags) (n : node) : Prop :=
+    wf_node n = true -> class_hdrs_ok_node n = true ->
+    forall N rest st st',
+      class_stack st = Some N :: rest -> N < length (documented st) ->
+      run fl st (flatten n) = Ok st' ->
+      class_run N (node_items n) st st'.
+
+  Lemma nodes_class_run : forall fl nodes,
+      Forall (class_run_spec fl) nodes ->
+      wf_nodes nodes = true -> class_hdrs_ok nodes = true ->
+      forall N rest st st',
+        class_stack st = Some N :: rest -> N < length (documented st) ->
+        run fl st (flatten_all nodes) = Ok st' ->
+        class_run N (items_of nodes) st st'.
+  Proof.
+    intros fl nodes HF. induction HF as [|x r Hx _ IH]; intros Hwf Hok N rest st st' Hcs HN Hrun.
+    - cbn in Hrun. inversion Hrun; subst. apply class_run_refl.
+    - cbn [wf_nodes forallb] in Hwf. cbn [class_hdrs_ok forallb] in Hok.
+      apply andb_true_iff in Hwf, Hok. destruct Hwf as [W1 W2]. destruct Hok as [B1 B2].
+      cbn [flatten_all flat_map] in Hrun. rewrite run_app in Hrun.
+      destruct (run fl st (flatten x)) as [st1|] eqn:E1; [|discriminate].
+      pose proof (Hx W1 B1 N rest st st1 Hcs HN E1) as R1.
+      assert (R2 : class_run N (items_of r) st1 st').
+      { destruct R1 as (A1 & A2 & _).
+        apply (IH W2 B2 N rest); [rewrite A1; exact Hcs|lia|exact Hrun]. }
+      exact (class_run_trans N _ _ _ _ _ R1 R2).
+  Qed.
+
+  Lemma node_class_run : forall fl, class_flags_on fl = true -> forall n, class_run_spec fl n.
+  Proof.
+    intros fl Hfl. unfold class_run_spec.
+    induction n as [d c|d|d h body e IH|d h body e IH] using node_ind2;
+      intros Hwf Hok N rest st st' Hcs HN Hrun.
+    - cbn [flatten agg_run] in Hrun.
+      destruct (step fl st (elem_of d c)) as [st1|] eqn:E; [|discriminate].
+      inversion Hrun; subst; clear Hrun.
+      apply (cmd_class_run fl d c N rest); assumption.
+    - cbn in Hrun. inversion Hrun; subst. apply class_run_refl.
+    - (* definition block: transparent *)
+      rewrite flatten_def in Hrun. rewrite wf_def in Hwf. rewrite hdrs_ok_def in Hok.
+      apply andb_true_iff in Hwf. destruct Hwf as [Hwf W3].
+      apply andb_true_iff in Hwf. destruct Hwf as [W1 W2].
+      cbn [agg_run] in Hrun.
+      destruct (step fl st (elem_of d h)) as [st1|] eqn:E1; [|discriminate].
+      rewrite run_app in Hrun.
+      destruct (run fl st1 (flatten_all body)) as [st2|] eqn:E2; [|discriminate].
+      cbn [agg_run] in Hrun.
+      destruct (step fl st2 (ECmd e)) as [st3|] eqn:E3; [|discriminate].
+      inversion Hrun; subst; clear Hrun.
+      apply step_frame in E1. destruct E1 as (E1a & _ & E1b).
+      apply step_frame in E3. destruct E3 as (E3a & _ & E3b).
+      assert (R1 : class_run N no_items st st1).
+      { apply class_run_frame.
+        - apply (E1a _ (elem_kind_elem_of d h)). apply def_not_class; exact W1.
+        - apply (E1b _ (elem_kind_elem_of d h)). apply def_not_item; exact W1. }
+      assert (R2 : class_run N (items_of body) st1 st2).
+      { destruct R1 as (A1 & A2 & _).
+        apply (nodes_class_run fl body IH W3 Hok N rest); [rewrite A1; exact Hcs|lia|exact E2]. }
+      assert (R3 : class_run N no_items st2 st').
+      { apply class_run_frame.
+        - apply (E3a _ eq_refl). apply end_def_not_class; exact W2.
+        - apply (E3b _ eq_refl). apply end_def_not_item; exact W2. }
+      pose proof (class_run_trans N _ _ _ _ _ (class_run_trans N _ _ _ _ _ R1 R2) R3) as R.
+      replace (node_items (NDef d h body e)) with (items_app (items_app no_items (items_of body)) no_items);
+        [exact R|].
+      unfold items_app, no_items, items_of, node_items. cbn. rewrite !app_nil_r. reflexivity.
+    - (* nested class: registers its name, keeps its items to itself *)
+      rewrite flatten_class in Hrun. rewrite wf_class in Hwf. rewrite hdrs_ok_class in Hok.
+      apply andb_true_iff in Hwf. destruct Hwf as [Hwf W3].
+      apply andb_true_iff in Hwf. destruct Hwf as [W1 W2].
+      apply andb_true_iff in Hok. destruct Hok as [B1 B2].
+      unfold is_class_cmd, kind_is in W1. apply str_eqb_eq in W1.
+      unfold is_end_class_cmd, kind_is in W2. apply str_eqb_eq in W2.
+      destruct (singles h) as [|nm su] eqn:Hs; [discriminate|].
+      unfold class_flags_on in Hfl.
+      assert (F1 : inc_cpp_class fl = true).
+      { destruct (inc_cpp_class fl); [reflexivity|discriminate]. }
+      cbn [agg_run] in Hrun.
+      rewrite step_class in Hrun by assumption.
+      rewrite run_app in Hrun.
+      set (st1 := process_class h (doc_of d) (docd_of d) st) in *.
+      destruct (run fl st1 (flatten_all body)) as [st2|] eqn:E2; [|discriminate].
+      cbn [agg_run] in Hrun.
+      rewrite step_end_class in Hrun by exact W2.
+      assert (Hd1 : documented st1
+                    = update_nth N (add_inner nm) (documented st)
+                      ++ [EClass nm (doc_of d) su [] [] [] []]).
+      { unfold st1, process_class. rewrite Hs, Hcs.
+        cbn [with_class_stack with_docs append documented].
+        apply update_nth_app1. exact HN. }
+      assert (Hc1 : class_stack st1 = Some (length (documented st)) :: Some N :: rest).
+      { unfold st1. rewrite (process_class_stack _ _ _ _ _ _ Hs), Hcs. reflexivity. }
+      assert (Hl1 : length (documented st1) = S (length (documented st))).
+      { rewrite Hd1, app_length, length_update_nth. cbn [length]. lia. }
+      assert (R2 : class_run (length (documented st)) (items_of body) st1 st2).
+      { apply (nodes_class_run fl body IH W3 B2 _ (Some N :: rest)); [exact Hc1|lia|exact E2]. }
+      destruct R2 as (A1 & A2 & A3 & _).
+      rewrite A1, Hc1 in Hrun. cbn [agg_run] in Hrun. inversion Hrun; subst st'; clear Hrun.
+      unfold node_items. cbn [node_inner node_method_decls node_attrs]. rewrite Hs.
+      split; [|split; [|split]].
+      + cbn [with_class_stack class_stack]. symmetry. exact Hcs.
+      + cbn [with_class_stack documented]. lia.
+      + intros i Hi Hn. unfold cview_at at 1. cbn [with_class_stack documented].
+        fold (cview_at st2 i). rewrite A3 by lia.
+        unfold cview_at. rewrite Hd1, nth_error_app1 by (rewrite length_update_nth; exact Hi).
+        rewrite nth_error_update_nth_neq by exact Hn. reflexivity.
+      + intros _. unfold cview_at at 1. cbn [with_class_stack documented].
+        fold (cview_at st2 N). rewrite A3 by lia.
+        unfold cview_at. rewrite Hd1, nth_error_app1 by (rewrite length_update_nth; exact HN).
+        rewrite nth_error_update_nth, Nat.eqb_refl.
+        destruct (nth_error (documented st) N) as [e0|]; cbn [option_map]; [|reflexivity].
+        apply cview_add_inner.
+  Qed.
+
+  (* the top of the class stack, if any, points at an existing entry *)
+  Definition top_in_range (st : agg) : bool :=
+    match class_stack st with
+    | Some i :: _ => Nat.ltb i (length (documented st))
+    | _ => true
+    end.
+  Definition is_top (i : nat) (st : agg) : bool :=
+    match class_stack st with
+    | Some j :: _ => Nat.eqb i j
+    | _ => false
+    end.
+
+  Theorem class_entry_reflects_body :
+    forall fl doc hdr body endc name supers st st',
+      class_flags_on fl = true ->
+      wf_node (NClass doc hdr body endc) = true ->
+      class_hdrs_ok [NClass doc hdr body endc] = true ->
+      singles hdr = name :: supers ->
+      top_in_range st = true ->
+      run fl st (flatten (NClass doc hdr body endc)) = Ok st' ->
+      cview_at st' (length (documented st))
+      = Some {| cv_name := name; cv_doc := doc_of doc; cv_supers := supers;
+                cv_inner := class_inner body;
+                cv_ctors := class_method_decls true body;
+                cv_members := class_method_decls false body;
+                cv_attrs := class_attrs body |}
+      /\ class_stack st' = class_stack st
+      /\ (forall i, i < length (documented st) ->
+                    cview_at st' i
+                    = if is_top i st
+                      then option_map (cv_ext {| it_inner := [name]; it_ctors := [];
+                                                 it_members := []; it_attrs := [] |})
+                                      (cview_at st i)
+                      else cview_at st i).
+  Proof.
+    intros fl doc hdr body endc name supers st st' Hfl Hwf Hok Hs Htop Hrun.
+    rewrite flatten_class in Hrun. rewrite wf_class in Hwf.
+    cbn [class_hdrs_ok forallb] in Hok. rewrite andb_true_r, hdrs_ok_class in Hok.
+    apply andb_true_iff in Hwf. destruct Hwf as [Hwf W3].
+    apply andb_true_iff in Hwf. destruct Hwf as [W1 W2].
+    apply andb_true_iff in Hok. destruct Hok as [_ B2].
+    unfold is_class_cmd, kind_is in W1. apply str_eqb_eq in W1.
+    unfold is_end_class_cmd, kind_is in W2. apply str_eqb_eq in W2.
+    assert (F1 : inc_cpp_class fl = true).
+    { unfold class_flags_on in Hfl. destruct (inc_cpp_class fl); [reflexivity|discriminate]. }
+    cbn [agg_run] in Hrun. rewrite step_class in Hrun by assumption.
+    rewrite run_app in Hrun.
+    set (st1 := process_class hdr (doc_of doc) (docd_of doc) st) in *.
+    set (N := length (documented st)) in *.
+    destruct (run fl st1 (flatten_all body)) as [st2|] eqn:E2; [|discriminate].
+    cbn [agg_run] in Hrun. rewrite step_end_class in Hrun by exact W2.
+    set (newc := EClass name (doc_of doc) supers [] [] [] []).
+    assert (Hd1 : documented st1
+                  = match class_stack st with
+                    | Some ci :: _ => update_nth ci (add_inner name) (documented st)
+                    | _ => documented st
+                    end ++ [newc]).
+    { unfold st1, process_class. rewrite Hs. unfold top_in_range in Htop.
+      destruct (class_stack st) as [|[ci|] r] eqn:Ecs;
+        cbn [with_class_stack with_docs append documented]; try reflexivity.
+      apply update_nth_app1. apply Nat.ltb_lt. exact Htop. }
+    assert (Hlen0 : length (match class_stack st with
+                            | Some ci :: _ => update_nth ci (add_inner name) (documented st)
+                            | _ => documented st
+                            end) = N).
+    { destruct (class_stack st) as [|[ci|] r]; try reflexivity. apply length_update_nth. }
+    assert (Hc1 : class_stack st1 = Some N :: class_stack st).
+    { unfold st1. apply (process_class_stack _ _ _ _ _ _ Hs). }
+    assert (Hl1 : length (documented st1) = S N).
+    { rewrite Hd1, app_length, Hlen0. cbn [length]. lia. }
+    assert (R2 : class_run N (items_of body) st1 st2).
+    { apply (nodes_class_run fl body) with (rest := class_stack st); try assumption; [|lia].
+      apply Forall_forall. intros n _. apply node_class_run. exact Hfl. }
+    destruct R2 as (A1 & A2 & A3 & A4).
+    rewrite A1, Hc1 in Hrun. inversion Hrun; subst st'; clear Hrun.
+    split; [|split].
+    - unfold cview_at at 1. cbn [with_class_stack documented]. fold (cview_at st2 N).
+      rewrite A4 by lia. unfold cview_at. rewrite Hd1, nth_error_app2 by lia.
+      rewrite Hlen0, Nat.sub_diag. cbn [nth_error newc cview option_map].
+      unfold cv_ext, items_of. cbn. reflexivity.
+    - reflexivity.
+    - intros i Hi. unfold cview_at at 1. cbn [with_class_stack documented]. fold (cview_at st2 i).
+      rewrite A3 by lia. unfold cview_at at 1. rewrite Hd1, nth_error_app1 by lia.
+      unfold is_top. destruct (class_stack st) as [|[ci|] r]; try reflexivity.
+      rewrite nth_error_update_nth. unfold cview_at.
+      destruct (Nat.eqb i ci); [|reflexivity].
+      destruct (nth_error (documented st) i) as [e0|]; cbn [option_map]; [|reflexivity].
+      apply cview_add_inner.
+  Qed.
+
+  (* the same in terms of the entry itself *)
+  Corollary class_entry_reflects_body_entry :
+    forall fl doc hdr body endc name supers st st',
+      class_flags_on fl = true ->
+      wf_node (NClass doc hdr body endc) = true ->
+      class_hdrs_ok [NClass doc hdr body endc] = true ->
+      singles hdr = name :: supers ->
+      top_in_range st = true ->
+      run fl st (flatten (NClass doc hdr body endc)) = Ok st' ->
+      exists ctors members attrs,
+        nth_error (documented st') (length (documented st))
+        = Some (EClass name (doc_of doc) supers (class_inner body) ctors members attrs)
+        /\ map method_view ctors = class_method_decls true body
+        /\ map method_view members = class_method_decls false body
+        /\ map attr_view attrs = class_attrs body.
+  Proof.
+    intros fl doc hdr body endc name supers st st' Hfl Hwf Hok Hs Htop Hrun.
+    destruct (class_entry_reflects_body fl doc hdr body endc name supers st st'
+                Hfl Hwf Hok Hs Htop Hrun) as (H & _).
+    unfold cview_at in H.
+    destruct (nth_error (documented st') (length (documented st))) as [e0|]; [|discriminate].
+    destruct e0; try discriminate. cbn [cview] in H. inversion H; subst.
+    eexists _, _, _. repeat split.
+  Qed.
+
+  Corollary class_entry_reflects_body_default :
+    forall doc hdr body endc name supers st st',
+      wf_node (NClass doc hdr body endc) = true ->
+      class_hdrs_ok [NClass doc hdr body endc] = true ->
+      singles hdr = name :: supers ->
+      top_in_range st = true ->
+      run default_flags st (flatten (NClass doc hdr body endc)) = Ok st' ->
+      exists ctors members attrs,
+        nth_error (documented st') (length (documented st))
+        = Some (EClass name (doc_of doc) supers (class_inner body) ctors members attrs)
+        /\ map method_view ctors = class_method_decls true body
+        /\ map method_view members = class_method_decls false body
+        /\ map attr_view attrs = class_attrs body.
+  Proof.
+    intros. eapply class_entry_reflects_body_entry; try eassumption. reflexivity.
+  Qed.
+
+  (* ---- reachable states keep the class stack inside the entry list -------------------- *)
+
+  Definition stack_in_range (st : agg) : bool :=
+    forallb (fun o => match o with
+                      | Some i => Nat.ltb i (length (documented st))
+                      | None => true
+                      end) (class_stack st).
+
+  Definition range_step (st st' : agg) : Prop :=
+    length (documented st) <= length (documented st')
+    /\ (forall i, In (Some i) (class_stack st') ->
+                  In (Some i) (class_stack st)
+                  \/ (i = length (documented st) /\ i < length (documented st'))).
+
+  Lemma stack_in_range_spec : forall st,
+      stack_in_range st = true
+      <-> (forall i, In (Some i) (class_stack st) -> i < length (documented st)).
+  Proof.
+    intros st. unfold stack_in_range. rewrite forallb_forall. split.
+    - intros H i Hi. apply Nat.ltb_lt. apply (H _ Hi).
+    - intros H [i|] Hi; [|reflexivity]. apply Nat.ltb_lt. apply H. exact Hi.
+  Qed.
+
+  Lemma range_step_inv : forall st st',
+      range_step st st' -> stack_in_range st = true -> stack_in_range st' = true.
+  Proof.
+    intros st st' [L H]. rewrite !stack_in_range_spec. intros Hin i Hi.
+    destruct (H i Hi) as [Ha|[Ha Hb]]; [apply Hin in Ha; lia|exact Hb].
+  Qed.
+
+  Ltac range_same :=
+    split;
+    [ cbn [documented with_docs with_awaiting with_def_stack with_class_stack append];
+      rewrite ?length_update_nth, ?app_length; cbn [length]; lia
+    | let i := fresh "i" in let Hi := fresh "Hi" in
+      intros i Hi; left; exact Hi ].
+
+  Lemma process_class_range : forall c doc docd st,
+      range_step st (process_class c doc docd st).
+  Proof.
+    intros c doc docd st. unfold process_class.
+    destruct (singles c) as [|nm su]; [range_same|].
+    destruct (class_stack st) as [|[ci|] r] eqn:Ecs;
+      (split;
+       [ cbn [documented with_docs with_class_stack append];
+         rewrite ?length_update_nth, ?app_length; cbn [length]; lia
+       | intros i Hi; cbn [class_stack with_docs with_class_stack append] in Hi;
+         destruct Hi as [Hi|Hi];
+         [ inversion Hi; subst; right; split; [reflexivity|];
+           cbn [documented with_docs with_class_stack append];
+           rewrite ?length_update_nth, ?app_length; cbn [length]; lia
+         | left; exact Hi ] ]).
+  Qed.
+
+  Lemma run_handler_range : forall h c doc docd st st',
+      runh h c doc docd st = Ok st' -> range_step st st'.
+  Proof.
+    intros h c doc docd st st' H. destruct h; cbn [run_handler] in H.
+    - unfold process_def in H. destruct (singles c) as [|nm ps]; [discriminate|].
+      inversion H; subst; clear H. range_same.
+    - unfold process_def in H. destruct (singles c) as [|nm ps]; [discriminate|].
+      inversion H; subst; clear H. range_same.
+    - inversion H; subst; clear H. unfold process_cpa.
+      destruct (def_stack st) as [|[idx|] r]; range_same.
+    - inversion H; subst; clear H. unfold process_test.
+      destruct (Nat.ltb (length (singles c)) 2); [range_same|].
+      destruct (scan_name (singles c) []); range_same.
+    - inversion H; subst; clear H. unfold process_test.
+      destruct (Nat.ltb (length (singles c)) 2); [range_same|].
+      destruct (scan_name (singles c) []); range_same.
+    - unfold process_set in H. destruct (singles c) as [|nm vals]; [inversion H; subst; range_same|].
+      destruct vals as [|v [|v2 vals]].
+      + inversion H; subst; range_same.
+      + destruct (unquote v); [|discriminate]. inversion H; subst; range_same.
+      + inversion H; subst; range_same.
+    - inversion H; subst; clear H. apply process_class_range.
+    - inversion H; subst; clear H. unfold process_member.
+      destruct (Nat.ltb (length (singles c)) 2); [range_same|].
+      destruct (class_stack st) as [|[ci|] r] eqn:Ecs; range_same.
+    - inversion H; subst; clear H. unfold process_member.
+      destruct (Nat.ltb (length (singles c)) 2); [range_same|].
+      destruct (class_stack st) as [|[ci|] r] eqn:Ecs; range_same.
+    - inversion H; subst; clear H. unfold process_attr.
+      destruct (Nat.ltb (length (singles c)) 2); [range_same|].
+      destruct (class_stack st) as [|[ci|] r] eqn:Ecs; range_same.
+    - inversion H; subst; clear H. unfold process_add_test.
+      destruct (Nat.ltb (length (singles c)) 2); [range_same|].
+      destruct (scan_name_idx (singles c) 0 (None, [])) as [[ix nm]|]; range_same.
+    - inversion H; subst; clear H. unfold process_option.
+      destruct (singles c) as [|a [|b [|v [|w r]]]]; range_same.
+  Qed.
+
+  Lemma enter_documented_range : forall d c st st',
+      enterdoc d c st = Ok st' -> range_step st st'.
+  Proof.
+    intros d c st st' H. unfold enter_documented in H.
+    destruct (lookup (lower_ascii (c_name c)) handler_table) as [h|].
+    - apply run_handler_range in H. exact H.
+    - inversion H; subst. unfold process_generic. range_same.
+  Qed.
+
+  Lemma enter_command_range : forall fl consumed c st st',
+      entercmd fl consumed c st = Ok st' -> range_step st st'.
+  Proof.
+    intros fl consumed c st st' H. unfold enter_command in H. cbv zeta in H.
+    destruct (str_eqb (lower_ascii (c_name c)) (s"cpp_class") && negb (inc_cpp_class fl)).
+    { inversion H; subst. split; [cbn; lia|].
+      intros i Hi. cbn [class_stack with_class_stack] in Hi.
+      destruct Hi as [Hi|Hi]; [discriminate Hi|left; exact Hi]. }
+    destruct (str_eqb (lower_ascii (c_name c)) (s"cpp_end_class")).
+    { destruct (class_stack st) as [|x cs] eqn:Ecs; [discriminate|]. inversion H; subst.
+      split; [cbn; lia|]. intros i Hi. cbn [class_stack with_class_stack] in Hi.
+      left. rewrite Ecs. right. exact Hi. }
+    destruct (str_eqb (lower_ascii (c_name c)) (s"cmake_parse_arguments")).
+    { inversion H; subst. unfold process_cpa. destruct (def_stack st) as [|[idx|] r]; range_same. }
+    destruct (is_def_name (lower_ascii (c_name c))
+              && match awaiting st with AwNone => false | _ => true end).
+    { assert (L : forall a mac extra,
+                 length (upd_awaiting_entry a mac extra (documented st)) = length (documented st)).
+      { intros a mac extra. destruct a; cbn [upd_awaiting_entry]; rewrite ?length_update_nth; reflexivity. }
+      destruct consumed; inversion H; subst;
+        (split; [cbn [documented with_docs with_awaiting with_def_stack]; rewrite L; lia
+                |intros i Hi; left; exact Hi]). }
+    destruct (str_eqb (lower_ascii (c_name c)) (s"endfunction")
+              || str_eqb (lower_ascii (c_name c)) (s"endmacro")).
+    { destruct (def_stack st) as [|x ds]; [discriminate|]. inversion H; subst. range_same. }
+    destruct (negb (str_eqb (lower_ascii (c_name c)) (s"set")) && negb consumed);
+      [|inversion H; subst; range_same].
+    destruct (lookup (lower_ascii (c_name c)) handler_table) as [h|];
+      [|inversion H; subst; range_same].
+    destruct (include_flag fl h) as [[|]|]; [| |discriminate].
+    - apply run_handler_range in H. exact H.
+    - destruct (is_def_name (lower_ascii (c_name c))); inversion H; subst; range_same.
+  Qed.
+
+  Lemma step_stack_in_range : forall fl st e st',
+      step fl st e = Ok st' -> stack_in_range st = true -> stack_in_range st' = true.
+  Proof.
+    intros fl st e st' H Hin. destruct e as [d c|c|d]; cbn [agg_step] in H.
+    - destruct (enterdoc d c st) as [st1|] eqn:E1; [|discriminate].
+      apply enter_documented_range in E1. apply enter_command_range in H.
+      apply (range_step_inv _ _ H). apply (range_step_inv _ _ E1). exact Hin.
+    - apply enter_command_range in H. apply (range_step_inv _ _ H). exact Hin.
+    - inversion H; subst. exact Hin.
+  Qed.
+
+  Theorem run_stack_in_range : forall fl es st st',
+      run fl st es = Ok st' -> stack_in_range st = true -> stack_in_range st' = true.
+  Proof.
+    intros fl es. induction es as [|e r IH]; intros st st' H Hin; cbn [agg_run] in H.
+    - inversion H; subst. exact Hin.
+    - destruct (step fl st e) as [st1|] eqn:E; [|discriminate].
+      apply (IH _ _ H). apply (step_stack_in_range _ _ _ _ E). exact Hin.
+  Qed.
+
+  Lemma stack_in_range_top : forall st, stack_in_range st = true -> top_in_range st = true.
+  Proof.
+    intros st H. unfold stack_in_range in H. unfold top_in_range.
+    destruct (class_stack st) as [|[i|] r]; try reflexivity.
+    cbn [forallb] in H. apply andb_true_iff in H. destruct H as [H _]. exact H.
+  Qed.
+
+  (* in particular: every state reached from the start of a file *)
+  Corollary reachable_top_in_range : forall fl es st,
+      run fl agg_init es = Ok st -> top_in_range st = true.
+  Proof.
+    intros fl es st H. apply stack_in_range_top.
+    apply (run_stack_in_range fl es agg_init st H). reflexivity.
+  Qed.
+
 End WithParams.
+
+(* ---- Q7: rendering of methods and attributes ------------------------------------------ *)
+
+Definition method_heading (m : method) : str :=
+  m_name m ++ s"(" ++ join (s", ") (m_params m)
+         ++ (if mem_str (s"args") (m_types m) then s"[, ...]" else []) ++ s")".
+
+Definition method_note : elem := Dir (s"note") [method_macro_note] [] [].
+
+Definition dir_body (e : elem) : list elem :=
+  match e with Dir _ _ _ b => b | _ => [] end.
+Definition dir_opts (e : elem) : list (str * str) :=
+  match e with Dir _ _ o _ => o | _ => [] end.
+
+Lemma render_method_shape : forall m,
+    render_method m
+    = Dir (s"py:method") [method_heading m] []
+          ((if m_macro m then [method_note] else [])
+           ++ [Para (m_doc m)] ++ method_fields (m_doc m) (m_types m) (m_params m)).
+Proof.
+  intros m. unfold render_method, method_heading, method_note.
+  rewrite <- (app_assoc (join (s", ") (m_params m))). reflexivity.
+Qed.
+
+Lemma mem_str_In : forall x l, mem_str x l = true <-> In x l.
+Proof.
+  intros x l. induction l as [|y l IH]; cbn [mem_str In].
+  - split; [discriminate|tauto].
+  - rewrite orb_true_iff, IH, str_eqb_eq. split; intros [H|H]; auto.
+Qed.
+
+(* the variadic marker appears iff  args  is among the declared types *)
+Lemma method_heading_varargs : forall m,
+    (In (s"args") (m_types m) ->
+     method_heading m = m_name m ++ s"(" ++ join (s", ") (m_params m) ++ s"[, ...]" ++ s")")
+    /\ (~ In (s"args") (m_types m) ->
+        method_heading m = m_name m ++ s"(" ++ join (s", ") (m_params m) ++ s")").
+Proof.
+  intros m. unfold method_heading. split; intros H.
+  - apply mem_str_In in H. rewrite H. reflexivity.
+  - destruct (mem_str (s"args") (m_types m)) eqn:E; [apply mem_str_In in E; contradiction|].
+    reflexivity.
+Qed.
+
+Lemma method_fields_are_fields : forall doc ts ps e,
+    In e (method_fields doc ts ps) ->
+    exists t p, In (t, p) (combine ts ps)
+                /\ (e = Field (s"param " ++ p) [] \/ e = Field (s"type " ++ p) t).
+Proof.
+  intros doc ts. induction ts as [|t ts IH]; intros [|p ps] e H; cbn [method_fields] in H;
+    try contradiction.
+  apply in_app_or in H. destruct H as [H|H].
+  { destruct (contains (s":param " ++ p ++ s":") doc); [contradiction|].
+    destruct H as [H|[]]. exists t, p. split; [left; reflexivity|left; auto]. }
+  apply in_app_or in H. destruct H as [H|H].
+  { destruct (contains (s":type " ++ p ++ s":") doc); [contradiction|].
+    destruct H as [H|[]]. exists t, p. split; [left; reflexivity|right; auto]. }
+  destruct (IH _ _ H) as (t' & p' & A & B). exists t', p'. split; [right; exact A|exact B].
+Qed.
+
+(* the macro note is there iff the implementing definition was a macro *)
+Lemma method_macro_note_iff : forall m,
+    In method_note (dir_body (render_method m)) <-> m_macro m = true.
+Proof.
+  intros m. rewrite render_method_shape. cbn [dir_body]. split.
+  - intros H. destruct (m_macro m); [reflexivity|]. cbn [app] in H.
+    destruct H as [H|H]; [discriminate H|].
+    apply method_fields_are_fields in H. destruct H as (t & p & _ & [H|H]); discriminate H.
+  - intros H. rewrite H. left. reflexivity.
+Qed.
+
+(* types and parameter names are paired position-wise *)
+Lemma method_fields_pairwise : forall doc ts ps,
+    (forall p, In p ps -> contains (s":param " ++ p ++ s":") doc = false
+                          /\ contains (s":type " ++ p ++ s":") doc = false) ->
+    method_fields doc ts ps
+    = flat_map (fun tp => [Field (s"param " ++ snd tp) []; Field (s"type " ++ snd tp) (fst tp)])
+               (combine ts ps).
+Proof.
+  intros doc ts. induction ts as [|t ts IH]; intros [|p ps] H; try reflexivity.
+  cbn [method_fields combine flat_map fst snd].
+  destruct (H p (or_introl eq_refl)) as [A B]. rewrite A, B. cbn [app].
+  rewrite IH; [reflexivity|]. intros q Hq. apply H. right. exact Hq.
+Qed.
+
+Lemma method_fields_length : forall doc ts ps,
+    (forall p, In p ps -> contains (s":param " ++ p ++ s":") doc = false
+                          /\ contains (s":type " ++ p ++ s":") doc = false) ->
+    length (method_fields doc ts ps) = 2 * Nat.min (length ts) (length ps).
+Proof.
+  intros doc ts ps H. rewrite method_fields_pairwise by exact H.
+  rewrite <- combine_length. induction (combine ts ps) as [|x l IH]; [reflexivity|].
+  cbn [flat_map app length]. rewrite IH. lia.
+Qed.
+
+(* an attribute shows a value option iff a default was given *)
+Lemma render_attribute_value : forall a,
+    dir_opts (render_attribute a)
+    = match a_default a with Some v => [(s"value", v)] | None => [] end.
+Proof. intros a. reflexivity. Qed.
+
+Lemma render_attribute_value_iff : forall a,
+    dir_opts (render_attribute a) = [] <-> a_default a = None.
+Proof.
+  intros a. rewrite render_attribute_value. destruct (a_default a); split; intro H;
+    try reflexivity; discriminate H.
+Qed.
+
+(* ---- examples: non-vacuity and counterexamples ----------------------------------------- *)
+
+Module Examples.
+  Local Open Scope string_scope.
+
+  Definition mkc (name : string) (args : list string) : cmd :=
+    {| c_name := of_string name;
+       c_args := map (fun a => ASingle TUnquoted (of_string a)) args |}.
+  Definition idf (x : str) : str := x.
+  Definition trg : str := s":keyword".
+  (* a three-line bracket doccomment; its cleaned text is the line Doc plus a newline *)
+  Definition dtext : str := (s"#[[[" ++ [nl] ++ s"# Doc" ++ [nl] ++ s"#]]")%list.
+  Definition ddoc : str := (s"Doc" ++ [nl])%list.
+
+  (* a class with an attribute, a documented member implemented by a macro (with another
+     attribute inside the macro body), a nested class with its own member, and then a
+     constructor and another attribute of the outer class *)
+  Definition ex_body : list node :=
+    [ NCmd None (mkc "cpp_attr" ["Outer"; "color"; "red"]);
+      NCmd (Some dtext) (mkc "cpp_member" ["run"; "Outer"; "int"; "args"]);
+      NDef None (mkc "macro" ["${run}"; "self"; "a"; "b"])
+           [ NCmd None (mkc "cpp_attr" ["Outer"; "inside"]) ] (mkc "endmacro" []);
+      NClass None (mkc "cpp_class" ["Inner"])
+             [ NCmd None (mkc "cpp_member" ["go"; "Inner"]);
+               NDef None (mkc "function" ["${go}"; "self"]) [] (mkc "endfunction" []) ]
+             (mkc "cpp_end_class" []);
+      NCmd None (mkc "cpp_constructor" ["CTOR"; "Outer"; "str"]);
+      NCmd None (mkc "cpp_attr" ["Outer"; "size"]) ].
+  Definition ex : node :=
+    NClass (Some dtext) (mkc "cpp_class" ["Outer"; "Base1"; "Base2"]) ex_body
+           (mkc "cpp_end_class" []).
+
+  Definition ex_outer : entry :=
+    EClass (s"Outer") ddoc [s"Base1"; s"Base2"] [s"Inner"]
+           [ {| m_name := s"CTOR"; m_doc := []; m_parent := s"Outer"; m_types := [s"str"];
+                m_params := []; m_ctor := true; m_macro := false; m_docd := false |} ]
+           [ {| m_name := s"run"; m_doc := ddoc; m_parent := s"Outer";
+                m_types := [s"int"; s"args"]; m_params := [s"a"; s"b"]; m_ctor := false;
+                m_macro := true; m_docd := true |} ]
+           [ {| a_name := s"color"; a_doc := []; a_parent := s"Outer";
+                a_default := Some (s"red"); a_docd := false |};
+             {| a_name := s"inside"; a_doc := []; a_parent := s"Outer"; a_default := None;
+                a_docd := false |};
+             {| a_name := s"size"; a_doc := []; a_parent := s"Outer"; a_default := None;
+                a_docd := false |} ].
+  Definition ex_inner : entry :=
+    EClass (s"Inner") [] [] [] []
+           [ {| m_name := s"go"; m_doc := []; m_parent := s"Inner"; m_types := [];
+                m_params := []; m_ctor := false; m_macro := false; m_docd := false |} ] [].
+
+  Example ex_hypotheses : wf_node ex = true /\ class_hdrs_ok [ex] = true
+                          /\ class_flags_on default_flags = true
+                          /\ top_in_range agg_init = true.
+  Proof. vm_compute. repeat split. Qed.
+
+  (* the run succeeds (so Q1, Q5, Q6 are not vacuous) and yields exactly these two entries;
+     Q4 is visible in run: its parameter names a b come from the macro, with the macro mark *)
+  Example ex_run :
+    agg_run default_flags trg idf idf idf agg_init (flatten ex)
+    = Ok {| documented := [ex_outer; ex_inner]; origins := [true; false];
+            class_stack := []; def_stack := []; awaiting := AwMethod 0 true |}.
+  Proof. vm_compute. reflexivity. Qed.
+
+  Example ex_spec_side :
+    class_inner ex_body = [s"Inner"]
+    /\ class_attrs ex_body = [(s"Outer", s"color", Some (s"red")); (s"Outer", s"inside", None);
+                              (s"Outer", s"size", None)]
+    /\ class_method_decls false ex_body = [(s"run", s"Outer", [s"int"; s"args"])]
+    /\ class_method_decls true ex_body = [(s"CTOR", s"Outer", [s"str"])].
+  Proof. vm_compute. repeat split. Qed.
+
+  (* Q1 without the header hypothesis is false: an argument-less cpp_class pushes nothing,
+     its cpp_end_class pops the frame of the enclosing class *)
+  Definition st_open : agg :=
+    {| documented := [EClass (s"A") [] [] [] [] [] []]; origins := [false];
+       class_stack := [Some 0]; def_stack := []; awaiting := AwNone |}.
+  Definition no_args_class : node :=
+    NClass None (mkc "cpp_class" []) [] (mkc "cpp_end_class" []).
+
+  Example class_no_args_unbalanced_refuted :
+    inc_cpp_class default_flags = true
+    /\ wf_nodes [no_args_class] = true
+    /\ class_hdrs_ok [no_args_class] = false
+    /\ agg_run default_flags trg idf idf idf st_open (flatten_all [no_args_class])
+       = Ok (with_class_stack [] st_open)
+    /\ class_stack (with_class_stack [] st_open) <> class_stack st_open.
+  Proof. vm_compute. repeat split. discriminate. Qed.
+
+  (* Q1 with the class flag off is false for a doccomment-carrying class (finding F9):
+     two pushes, one pop *)
+  Definition flags_class_off : flags :=
+    {| inc_function := true; inc_macro := true; inc_cpp_class := false; inc_cpp_attr := true;
+       inc_cpp_constructor := true; inc_cpp_member := true; inc_ct_add_test := true;
+       inc_ct_add_section := true; inc_add_test := true; inc_option := true |}.
+  Definition doc_class : node :=
+    NClass (Some dtext) (mkc "cpp_class" ["A"]) [] (mkc "cpp_end_class" []).
+
+  Example class_stack_restored_flag_off_refuted :
+    wf_nodes [doc_class] = true
+    /\ class_hdrs_ok [doc_class] = true
+    /\ exists st', agg_run flags_class_off trg idf idf idf agg_init (flatten_all [doc_class]) = Ok st'
+                   /\ class_stack st' = [Some 0]
+                   /\ class_stack st' <> class_stack agg_init.
+  Proof.
+    split; [reflexivity|split; [reflexivity|]].
+    exists {| documented := [EClass (s"A") ddoc [] [] [] [] []]; origins := [true];
+              class_stack := [Some 0]; def_stack := []; awaiting := AwNone |}.
+    vm_compute. repeat split. discriminate.
+  Qed.
+
+  (* ... while the same input is balanced under default flags, and an undocumented class is
+     balanced with the flag off *)
+  Example class_stack_restored_nonvacuous :
+    exists st', agg_run default_flags trg idf idf idf agg_init (flatten_all [doc_class]) = Ok st'
+                /\ class_stack st' = [].
+  Proof.
+    exists {| documented := [EClass (s"A") ddoc [] [] [] [] []]; origins := [true];
+              class_stack := []; def_stack := []; awaiting := AwNone |}.
+    vm_compute. split; reflexivity.
+  Qed.
+
+  Example class_stack_restored_flag_off_nonvacuous :
+    no_doc_class [NClass None (mkc "cpp_class" ["A"]) [NCmd None (mkc "cpp_attr" ["A"; "x"])]
+                         (mkc "cpp_end_class" [])] = true
+    /\ agg_run flags_class_off trg idf idf idf agg_init
+               (flatten_all [NClass None (mkc "cpp_class" ["A"])
+                                    [NCmd None (mkc "cpp_attr" ["A"; "x"])]
+                                    (mkc "cpp_end_class" [])]) = Ok agg_init.
+  Proof. vm_compute. split; reflexivity. Qed.
+
+  (* Q5 needs the top of the class stack to point at an existing entry: in this (unreachable)
+     state the new class would be registered as an inner class of itself *)
+  Definition st_bad_top : agg :=
+    {| documented := []; origins := []; class_stack := [Some 0]; def_stack := [];
+       awaiting := AwNone |}.
+  Example class_entry_top_out_of_range_refuted :
+    top_in_range st_bad_top = false
+    /\ agg_run default_flags trg idf idf idf st_bad_top
+               (flatten (NClass None (mkc "cpp_class" ["A"]) [] (mkc "cpp_end_class" [])))
+       = Ok {| documented := [EClass (s"A") [] [] [s"A"] [] [] []]; origins := [false];
+               class_stack := [Some 0]; def_stack := []; awaiting := AwNone |}
+    /\ class_inner [] = [].
+  Proof. vm_compute. repeat split. Qed.
+
+  (* Q2 / Q3 on a concrete state *)
+  Example member_attaches_example :
+    documented (process_member false (mkc "cpp_member" ["f"; "A"; "int"]) ddoc true st_open)
+    = [EClass (s"A") [] [] [] []
+              [decl_method false (s"f") (s"A") [s"int"] ddoc true] []].
+  Proof. vm_compute. reflexivity. Qed.
+
+  Example inner_class_example :
+    process_class (mkc "cpp_class" ["B"; "Base"]) ddoc true st_open
+    = {| documented := [EClass (s"A") [] [] [s"B"] [] [] []; EClass (s"B") ddoc [s"Base"] [] [] [] []];
+         origins := [false; true]; class_stack := [Some 1; Some 0]; def_stack := [];
+         awaiting := AwNone |}.
+  Proof. vm_compute. reflexivity. Qed.
+
+  (* Q7 on the documented method of the example *)
+  Example render_run_heading :
+    method_heading {| m_name := s"run"; m_doc := ddoc; m_parent := s"Outer";
+                      m_types := [s"int"; s"args"]; m_params := [s"a"; s"b"]; m_ctor := false;
+                      m_macro := true; m_docd := true |}
+    = s"run(a, b[, ...])".
+  Proof. vm_compute. reflexivity. Qed.
+End Examples.
+
+(* ==== MAIN THEOREMS ====
+   Q1  class_stack_restored, class_stack_restored_gen, class_stack_restored_flag_off
+       Examples.class_no_args_unbalanced_refuted, Examples.class_stack_restored_flag_off_refuted (F9)
+   Q2  member_attaches_to_top_only, attr_attaches_to_top_only, attr_default_iff, attr_default_third
+   Q3  inner_class_registered, outer_class_registered, class_no_args_noop
+   Q4  method_params_from_next_definition, awaiting_persists
+   Q5  class_entry_reflects_body, class_entry_reflects_body_entry, class_entry_reflects_body_default
+       (support: node_class_run, nodes_class_run, run_stack_in_range, reachable_top_in_range,
+        Examples.class_entry_top_out_of_range_refuted)
+   Q6  after_end_class_outer_context
+   Q7  render_method_shape, method_heading_varargs, method_macro_note_iff, method_fields_pairwise,
+       method_fields_length, method_fields_are_fields, render_attribute_value_iff
+   step characterisations: step_member, step_ctor, step_attr, step_class, step_end_class,
+       step_class_doc_flag_off, step_class_undoc_flag_off, step_frame *)
+Print Assumptions class_stack_restored.
+Print Assumptions class_stack_restored_gen.
+Print Assumptions class_stack_restored_flag_off.
+Print Assumptions member_attaches_to_top_only.
+Print Assumptions attr_attaches_to_top_only.
+Print Assumptions attr_default_iff.
+Print Assumptions inner_class_registered.
+Print Assumptions outer_class_registered.
+Print Assumptions method_params_from_next_definition.
+Print Assumptions awaiting_persists.
+Print Assumptions class_entry_reflects_body.
+Print Assumptions class_entry_reflects_body_entry.
+Print Assumptions class_entry_reflects_body_default.
+Print Assumptions run_stack_in_range.
+Print Assumptions reachable_top_in_range.
+Print Assumptions after_end_class_outer_context.
+Print Assumptions render_method_shape.
+Print Assumptions method_macro_note_iff.
+Print Assumptions method_fields_pairwise.
+Print Assumptions method_fields_length.
+Print Assumptions render_attribute_value_iff.
+Print Assumptions step_frame.
+Print Assumptions Examples.ex_run.
+Print Assumptions Examples.class_no_args_unbalanced_refuted.
+Print Assumptions Examples.class_stack_restored_flag_off_refuted.
